@@ -184,3 +184,37 @@ Proof.
 Qed.
 Lemma mm_erase_if_keys p s : map fst (mm_erase_if p s) = map fst s.
 Proof. induction s as [|[k0 vs] t IH]; simpl; auto. rewrite IH. destruct (p k0); reflexivity. Qed.
+
+(* erase(iterator) on the nested state removes exactly that pair *)
+Lemma zremove1_perm v l : In v l -> Permutation l (v :: zremove1 v l).
+Proof.
+  induction l as [|w t IH]; simpl; intros H; [tauto|]. destruct (Z.eqb_spec w v); [subst; auto|].
+  destruct H as [E|I]; [congruence|]. eapply perm_trans; [apply perm_skip, IH; auto|apply perm_swap].
+Qed.
+Lemma erase_pair_other k v s : ~ In k (map fst s) ->
+  flat_map (fun kv => if (fst kv =? k)%Z then (if existsb (Z.eqb v) (snd kv) then (if length (snd kv) =? 1 then [] else [(k, zremove1 v (snd kv))]) else [kv]) else [kv]) s = s.
+Proof.
+  induction s as [|[k0 vs] t IH]; simpl; intros H; auto. destruct (Z.eqb_spec k0 k); [exfalso; auto|]. simpl. f_equal. apply IH. tauto.
+Qed.
+Lemma mm_erase_pair_pairs k v s : NoDup (map fst s) -> In (k, v) (mm_pairs s) ->
+  Permutation (mm_pairs s) ((k, v) :: mm_pairs (mm_erase_pair k v s)).
+Proof.
+  unfold mm_erase_pair. induction s as [|[k0 vs] t IH]; simpl; intros ND I; [tauto|]. inversion ND as [|? ? Hn Hd]; subst.
+  destruct (Z.eqb_spec k0 k) as [E|E].
+  - subst k0. rewrite (erase_pair_other k v t Hn).
+    assert (Iv : In v vs).
+    { apply in_app_or in I. destruct I as [I|I].
+      - unfold kv_pairs in I; simpl in I. apply in_map_iff in I. destruct I as [w [Ew Iw]]. inversion Ew; subst; auto.
+      - exfalso. pose proof (cnt_notin t k v Hn) as C. apply (count_occ_not_In elem_dec) in C. auto. }
+    assert (Ex : existsb (Z.eqb v) vs = true) by (apply existsb_exists; exists v; split; auto; apply Z.eqb_refl).
+    rewrite Ex. destruct (Nat.eqb_spec (length vs) 1) as [L1|L1].
+    + destruct vs as [|w [|w2 vt]]; simpl in L1; try discriminate. destruct Iv as [->|[]]. simpl. reflexivity.
+    + change (mm_pairs ([(k, zremove1 v vs)] ++ t)) with (kv_pairs (k, zremove1 v vs) ++ mm_pairs t).
+      unfold kv_pairs; simpl fst; simpl snd.
+      change ((k, v) :: map (fun v0 => (k, v0)) (zremove1 v vs) ++ mm_pairs t) with (map (fun v0 => (k, v0)) (v :: zremove1 v vs) ++ mm_pairs t).
+      apply Permutation_app_tail. apply Permutation_map. apply zremove1_perm; auto.
+  - match goal with |- Permutation _ (_ :: mm_pairs ([(k0, vs)] ++ ?F)) => change (mm_pairs ([(k0, vs)] ++ F)) with (kv_pairs (k0, vs) ++ mm_pairs F) end.
+    assert (It : In (k, v) (mm_pairs t)).
+    { apply in_app_or in I. destruct I as [I|I]; auto. unfold kv_pairs in I; simpl in I. apply in_map_iff in I. destruct I as [w [Ew _]]. inversion Ew; congruence. }
+    eapply perm_trans; [apply Permutation_app_head, (IH Hd It)|]. apply Permutation_sym, Permutation_middle.
+Qed.
